@@ -89,7 +89,15 @@ func (e *Engine) interpretable(fn *ssa.Function) bool {
 
 // initAllowed reports whether a package's initializer is executed by the engine.
 func initAllowed(path string) bool {
-	return strings.HasPrefix(path, Module) || strings.HasPrefix(path, "github.com/berquerant/ybase")
+	if strings.HasPrefix(path, Module) || strings.HasPrefix(path, "github.com/berquerant/ybase") {
+		return true
+	}
+	switch path {
+	case "gitlab.com/gomidi/midi/v2", "gitlab.com/gomidi/midi/v2/smf", "gitlab.com/gomidi/midi/v2/gm",
+		"gitlab.com/gomidi/midi/v2/internal/utils", "gitlab.com/gomidi/midi/v2/internal/runningstatus", "gitlab.com/gomidi/midi/v2/drivers":
+		return true // plain table initialisers; interpreted so that gomidi's serialiser runs in the engine
+	}
+	return false
 }
 
 func (e *Engine) externalGlobal(g *ssa.Global) Value {
